@@ -8,9 +8,9 @@
 //! honest rows survive; certificate signers all have such a row; honest quorum => certified.
 use mon_agg::hist::{self, Run};
 use mon_agg::sim;
-use mithril_aggregator::services::{SequentialSignatureProcessor, SignatureConsumer, SignatureProcessor};
+use mithril_aggregator::services::{SequentialSignatureProcessor, SignatureConsumerDmq, SignatureProcessor};
 use mithril_common::entities::*;
-use mithril_common::messages::{RegisterSignatureMessageHttp, SignedEntityTypeMessage};
+use mithril_common::messages::{RegisterSignatureMessageDmq, RegisterSignatureMessageHttp, SignedEntityTypeMessage};
 use mithril_common::protocol::{SignerBuilder, ToMessage};
 use mithril_common::StdResult;
 use rand_chacha::ChaCha20Rng;
@@ -37,19 +37,20 @@ pub struct Submission {
     pub channel: Channel,
 }
 
-struct ScriptedConsumer {
-    queue: Mutex<Vec<(SingleSignature, SignedEntityType)>>,
+/// The message-queue client double: hands the REAL `SignatureConsumerDmq` one batch of
+/// (message, sender's party id) pairs - the party id is what the transport authenticated.
+struct ScriptedDmqClient {
+    batch: Mutex<Option<Vec<(RegisterSignatureMessageDmq, String)>>>,
 }
 
 #[async_trait::async_trait]
-impl SignatureConsumer for ScriptedConsumer {
-    async fn get_signatures(&self) -> StdResult<Vec<(SingleSignature, SignedEntityType)>> {
-        Ok(std::mem::take(&mut *self.queue.lock().unwrap()))
-    }
-    fn get_origin_tag(&self) -> String {
-        "VERIF".to_string()
+impl mithril_dmq::DmqConsumerClient<RegisterSignatureMessageDmq> for ScriptedDmqClient {
+    async fn consume_messages(&self) -> StdResult<Vec<(RegisterSignatureMessageDmq, String)>> {
+        Ok(self.batch.lock().unwrap().take().unwrap_or_default())
     }
 }
+
+static DMQ_NOISE: std::sync::atomic::AtomicU64 = std::sync::atomic::AtomicU64::new(0);
 
 /// identity of a signature = its sigma (the index list travels with it but is not part of the identity)
 fn sig_hex(s: &SingleSignature) -> String {
@@ -133,7 +134,24 @@ async fn submit_inner(run: &mut Run, set: &SignedEntityType, message: &ProtocolM
             format!("http:{}", resp.status().as_u16())
         }
         Channel::Dmq => {
-            let consumer = Arc::new(ScriptedConsumer { queue: Mutex::new(vec![(sig, set.clone())]) });
+            // the batch the node hands over: the submission, in some deliveries behind messages of
+            // OTHER senders that the consumer has to discard (signed entity type it does not know /
+            // a discontinued one): discarding them must not change whose name the submission carries
+            use mithril_common::messages::DiscontinuedSignedEntityType;
+            let real = RegisterSignatureMessageDmq { signed_entity_type: SignedEntityTypeMessage::Known(set.clone()), signature: sig.signature.clone() };
+            let mut batch = vec![];
+            let n_noise = DMQ_NOISE.fetch_add(1, std::sync::atomic::Ordering::SeqCst) % 3;
+            for i in 0..n_noise {
+                batch.push((
+                    RegisterSignatureMessageDmq {
+                        signed_entity_type: if i % 2 == 0 { SignedEntityTypeMessage::Unknown } else { SignedEntityTypeMessage::Discontinued(DiscontinuedSignedEntityType::CardanoImmutableFilesFull) },
+                        signature: sig.signature.clone(),
+                    },
+                    format!("pool1someoneelse{i:042}"),
+                ));
+            }
+            batch.push((real, sig.party_id.clone()));
+            let consumer = Arc::new(SignatureConsumerDmq::new(Arc::new(ScriptedDmqClient { batch: Mutex::new(Some(batch)) })));
             let (_tx, rx) = tokio::sync::watch::channel(());
             let metrics = match run.sim.builder.get_metrics_service().await {
                 Ok(m) => m,
@@ -360,6 +378,10 @@ pub async fn round(run: &mut Run, disc: SignedEntityTypeDiscriminants, early: bo
         }
     }
     let mut reported: BTreeSet<String> = BTreeSet::new();
+    // sigma of the last submission ACCEPTED under each party name in this round (the buffer keeps one
+    // entry per signed entity type and party: a later accepted submission under the same name
+    // legitimately takes the place of an earlier one)
+    let mut last_accepted_under_name: BTreeMap<String, String> = BTreeMap::new();
     let mut trace: Vec<Value> = vec![];
     let replay = |trace: &Vec<Value>, extra: Value| json!({"history": hid, "signed_entity_type": format!("{set:?}"), "early": early, "submissions": trace, "detail": extra});
     for sub in &subs {
@@ -376,6 +398,9 @@ pub async fn round(run: &mut Run, disc: SignedEntityTypeDiscriminants, early: bo
         let accepted = reply.starts_with("Registered") || reply.starts_with("Buffered") || reply == "http:201" || reply == "http:202" || reply == "dmq:processed";
         if sub.variant == "honest" && accepted {
             honest_delivered.insert(sub.label.clone(), sub.sig.clone());
+        }
+        if accepted {
+            last_accepted_under_name.insert(sub.label.clone(), sig_hex(&sub.sig));
         }
         run.deliveries.push(hist::Delivery {
             step: run.step,
@@ -434,6 +459,35 @@ pub async fn round(run: &mut Run, disc: SignedEntityTypeDiscriminants, early: bo
         let rows = rows_for(run, &snap, &set);
         if early {
             mon.count_n("buffered_signatures_handed_over_rows", rows.len() as u64);
+            // hand-over: once the open message of this very signed entity exists, every honest
+            // signature that was acknowledged as buffered under its owner's name - and was the last
+            // thing accepted under that name - must have been taken over into the table. Whatever
+            // OTHER parties sent in between (copies under their own names included) must not have
+            // displaced it.
+            let (tid0, beacon0) = hist::set_key(&set);
+            let opened = snap.open_messages.iter().any(|o| {
+                o["signed_entity_type_id"].as_i64() == Some(tid0)
+                    && match &o["beacon"] {
+                        Value::String(s) => serde_json::from_str::<Value>(s).unwrap_or(Value::Null) == beacon0,
+                        v => *v == beacon0,
+                    }
+            });
+            if opened {
+                for (p, s) in &honest_delivered {
+                    if last_accepted_under_name.get(p) != Some(&sig_hex(s)) {
+                        continue;
+                    }
+                    mon.eval();
+                    mon.count("buffered_honest_signature_expected_in_the_table_after_hand_over");
+                    if !rows.iter().any(|(l, sg, _)| l == p && *sg == sig_hex(s)) && reported.insert(format!("handover|{p}")) {
+                        mon.violation(
+                            "C16 an honest party's buffered signature was not handed over to the open message",
+                            &format!("party {p} delivered its own signature early (acknowledged as buffered, nothing else was accepted under its name afterwards); the open message exists now but holds no row with that signature under {p}"),
+                            replay(&trace, json!({"party": p})),
+                        );
+                    }
+                }
+            }
         }
         check_rows(&mut reported, run, mon, &rows, &honest, epoch, &message, "single_signature table after hand-over / sealing", ("(after the sealing ticks)", Channel::Api, "-"), &|extra| replay(&trace, extra));
     }
